@@ -401,7 +401,7 @@ func init() {
 			}
 			for i := 0; i < live; i++ {
 				mode := []string{"lonely-self", "absent"}[i%2]
-				cs = append(cs, CaseSpec{Kind: "live", P: map[string]int64{"n": int64(3 + (i/2)%4), "limit": int64(3 + (i*5)%8)}, S: map[string]string{"mode": mode}})
+				cs = append(cs, CaseSpec{Kind: "live", P: map[string]int64{"n": int64(3 + (i/2)%4), "limit": int64(3 + (i*5)%8), "pendingjoin": int64(i % 2)}, S: map[string]string{"mode": mode}})
 			}
 			return cs
 		},
